@@ -699,7 +699,10 @@ def refine_droplet(
             _image_deviation, data_flat[free], bounds=bounds, **least_squares_params
         )
         data_flat[free] = result.x
-    droplet.data = unstructured_to_structured(data_flat, dtype=dtype)
+    # store the result as an item of a record array (like all other droplets), so the
+    # droplet can be used everywhere, e.g., when merging droplets
+    data = unstructured_to_structured(data_flat[np.newaxis, :], dtype=dtype)
+    droplet.data = data.view(np.recarray)[0]
 
     # normalize the droplet position
     grid = phase_field.grid
